@@ -97,6 +97,11 @@ func (x *Exec) callMayModify(call *ast.CallExpr, add func(ast.Expr)) bool {
 			return false
 		}
 	}
+	if se, ok := ast.Unparen(call.Fun).(*ast.SelectorExpr); ok {
+		if _, isB := x.info.Uses[se.Sel].(*types.Builtin); isB {
+			return false
+		}
+	}
 	fn := x.callee(call)
 	if fn == nil {
 		return true // call through a function value
@@ -180,6 +185,11 @@ func (x *Exec) callInner(st *State, call *ast.CallExpr) []Term {
 	// builtin
 	if id, ok := ast.Unparen(call.Fun).(*ast.Ident); ok {
 		if b, isB := x.info.Uses[id].(*types.Builtin); isB {
+			return x.builtin(st, call, b.Name())
+		}
+	}
+	if se, ok := ast.Unparen(call.Fun).(*ast.SelectorExpr); ok {
+		if b, isB := x.info.Uses[se.Sel].(*types.Builtin); isB { // unsafe.SliceData etc.
 			return x.builtin(st, call, b.Name())
 		}
 	}
@@ -762,6 +772,27 @@ func (x *Exec) builtin(st *State, call *ast.CallExpr, name string) []Term {
 		return nil
 	case "print", "println":
 		return nil
+	case "SliceData":
+		// unsafe.SliceData(s): pointer identity of the backing array, an uninterpreted reference.
+		// Trusted: two slices with the same data pointer and the same length hold the same elements.
+		v := x.expr(st, call.Args[0])
+		ps := c.sortOf(x.typeOf(call))
+		if v.Sort.Kind != KSlice || ps.Kind != KPtr {
+			x.unsupported(call, "unsafe.SliceData on %s", v.Sort.Name)
+		}
+		fn := "dataref." + v.Sort.Name
+		if !c.declared[fn] {
+			c.declared[fn] = true
+			n := v.Sort.Name
+			c.emit(fmt.Sprintf("(declare-fun %s (%s) Int)", fn, n))
+			c.emit(fmt.Sprintf("(assert (forall ((a %s) (b %s)) (! (=> (and (= (%s a) (%s b)) (= (%s.len a) (%s.len b))) (forall ((j Int)) (=> (and (<= 0 j) (< j (%s.len a))) (= (select (%s.arr a) j) (select (%s.arr b) j))))) :pattern ((%s a) (%s b)))))", n, n, fn, fn, n, n, n, n, n, fn, fn))
+			c.note("unsafe.SliceData: same data pointer and same length imply equal elements (trusted)")
+		}
+		ref := app(sortInt, fn, v)
+		c.axiom(app(sortBool, ">", ref, tInt(0)))
+		r := c.mkPtr(ps, ref, c.zero(ps.Elem, nil))
+		r.Go = x.typeOf(call)
+		return []Term{r}
 	}
 	x.unsupported(call, "builtin %s", name)
 	return nil
